@@ -1466,7 +1466,7 @@ section C10
           the import from the importing module, except externals that match an external exclusion pattern or have a
           matching ancestor, which disappear together with their imports" — conjunct 4 (`Pta.C10.externals_included`, no
           level limit): for a converted import `i` with external importee: retained → importee and all dotted parents
-          are nodes and the edge exists (side condition `isInfix base importee = false`: the library skips importees
+          are nodes and the edge exists (the side condition `isInfix base importee = false` of earlier versions is gone since the repair of F-C10e, 4ee40c9: the library skipped importees
           whose name contains the root path string); not retained → the importee is not a node and no edge touches it,
           provided it is not itself a parsed module or a parent of one.  Conjunct 5
           (`Pta.C10.externals_included_limit`): the retained half under ANY level limit, for dot-free directory names.
@@ -1528,7 +1528,7 @@ def C10_Statement : Prop :=
     convertAll (scanParsed mt base rootName mp entries o) (absolutePrefix rootName mp)
       ((scanParsed mt base rootName mp entries o).allModules.filter fun m => isInternal m (internalPrefix rootName mp)) = .ok I →
     ∀ (i : ImportRec), i ∈ I → isInternal i.importee (internalPrefix rootName mp) = false →
-    (retained mt o (internalPrefix rootName mp) i = true → isInfix base i.importee = false →
+    (retained mt o (internalPrefix rootName mp) i = true →
       (∀ s ∈ withParents i.importee, s ∈ g.nodes) ∧
       (isInternal i.importer (internalPrefix rootName mp) = true → (i.importer, i.importee) ∈ g.importPairs)) ∧
     (retained mt o (internalPrefix rootName mp) i = false →
@@ -1541,7 +1541,7 @@ def C10_Statement : Prop :=
     convertAll (scanParsed mt base rootName mp entries o) (absolutePrefix rootName mp)
       ((scanParsed mt base rootName mp entries o).allModules.filter fun m => isInternal m (internalPrefix rootName mp)) = .ok I →
     ∀ (i : ImportRec), i ∈ I → isInternal i.importee (internalPrefix rootName mp) = false →
-    retained mt o (internalPrefix rootName mp) i = true → isInfix base i.importee = false →
+    retained mt o (internalPrefix rootName mp) i = true →
     '.' ∉ rootName → (∀ c ∈ mp, '.' ∉ c) →
     (∀ s ∈ withParents (flattenNode (shiftedLimit o mp) i.importee), s ∈ g.nodes) ∧
     (isInternal i.importer (internalPrefix rootName mp) = true →
@@ -1556,7 +1556,7 @@ def C10_Statement : Prop :=
     s ∈ g.nodes ↔
       (∃ m ∈ (scanParsed mt base rootName mp entries o).allModules, s ∈ withParents (flattenNode (shiftedLimit o mp) m)) ∨
       (∃ j ∈ I, isInternal j.importee (internalPrefix rootName mp) = false ∧
-        retained mt o (internalPrefix rootName mp) j = true ∧ isInfix base j.importee = false ∧
+        retained mt o (internalPrefix rootName mp) j = true ∧
         s ∈ withParents (flattenNode (shiftedLimit o mp) j.importee))) ∧
   -- 7 `Pta.C10.externals_not_retained_limit`
   (∀ (mt : Str → Str → Bool) (base rootName : Str) (mp : List Str) (entries : List Entry)
@@ -1596,7 +1596,7 @@ def C10_Statement : Prop :=
       (∃ m ∈ (scanParsed mt base rootName mp entries o).allModules,
         flattenNode (shiftedLimit o mp) i.importee ∈ withParents (flattenNode (shiftedLimit o mp) m)) ∨
       (∃ j ∈ I, isInternal j.importee (internalPrefix rootName mp) = false ∧
-        retained mt o (internalPrefix rootName mp) j = true ∧ isInfix base j.importee = false ∧
+        retained mt o (internalPrefix rootName mp) j = true ∧
         flattenNode (shiftedLimit o mp) i.importee ∈ withParents (flattenNode (shiftedLimit o mp) j.importee))) ∧
     (flattenNode (shiftedLimit o mp) i.importee ∉ g.nodes →
       ∀ x ∈ g.edges, x.src ≠ flattenNode (shiftedLimit o mp) i.importee ∧
